@@ -53,6 +53,15 @@ theorem C01_checkpoints_passed (c : Cfg) (ok : CpsOk c.cps) (hw : 1 ≤ c.win) (
   have h := inv_run c ok hw _ es (inv_init c ok peers)
   exact ⟨h.ncp, h.cps, h.anch, h.clean⟩
 
+/-- the same, spelled out for the events that go wrong in the field: `nextCheckpoint` is the first
+checkpoint above the stored tip after EVERY event list - including `headers` messages whose batch
+write fails (`Ev.headersFailWrite`: nothing stored, `nextCheckpoint` untouched even if the batch
+had reached the checkpoint) and headers imported underneath followed by `ResetHeaderState`
+(`Ev.importReset`: recomputed from the new tip, however many checkpoints the import crossed). -/
+theorem C01_next_checkpoint_every_event (c : Cfg) (ok : CpsOk c.cps) (hw : 1 ≤ c.win) (peers : List Peer) (es : List Ev) :
+    (run c (init c peers) es).ncp = findNextCp c.cps (tipHeight (run c (init c peers) es).log) :=
+  (C01_checkpoints_passed c ok hw peers es).1
+
 /-- the full shared invariant is inductive (`BM.inv_step` of DESIGN 6.6) -/
 theorem BM.inv_step_full (c : Cfg) (ok : CpsOk c.cps) (hw : 1 ≤ c.win) (s : State) (e : Ev) (h : BM.Inv c s) :
     BM.Inv c (step c s e).1 := Neutrino.BM.inv_step c ok hw s e h
@@ -185,6 +194,11 @@ def exPeers : List Peer := [{ id := 1, cand := true }, { id := 2, cand := true }
 
 example : (run exCfg (init exCfg exPeers) [.newPeer 1, .headers 1 [1, 2], .headers 1 [3, 4]]).log = [0, 1, 3, 4] := by decide
 example : (run exCfg (init exCfg exPeers) [.newPeer 1, .headers 1 [1, 2], .headers 2 [5]]).log = [0, 1] := by decide
+example : (run exCfg (init exCfg exPeers) [.newPeer 1, .headersFailWrite 1 [1, 2]]).log = [0] ∧
+    (run exCfg (init exCfg exPeers) [.newPeer 1, .headersFailWrite 1 [1, 2]]).ncp = some ⟨1, 1⟩ := by decide
+example : (run exCfg (init exCfg exPeers) [.importReset [1, 3, 4] 2]).log = [0, 1, 3, 4] ∧
+    (run exCfg (init exCfg exPeers) [.importReset [1, 3, 4] 2]).ncp = none ∧
+    (run exCfg (init exCfg exPeers) [.importReset [1, 3, 4] 2]).fst = 2 := by decide
 example : CpsOk exCfg.cps := ⟨by simp [exCfg], by simp [exCfg]⟩
 example : InvC01 exCfg (run exCfg (init exCfg exPeers) [.newPeer 1, .headers 1 [1, 2], .headers 1 [3, 4]]) :=
   C01_chain_valid_partial exCfg (by decide) exPeers _
